@@ -1,10 +1,10 @@
 SPECIFICATION MCSpec
 CONSTANTS
   Fixed = TRUE
-  Prefixes = {0, 70, 1000}
-  Fulls = {512, 700, 1100, 4100, 16500, 33000, 40000, 66000, 100000, 131072, 140000}
+  Prefixes = {0, 1000}
+  Fulls = {512, 1100, 4100, 16500, 33000, 66000, 131072, 140000}
   MaxFull = 2
   Lasts <- LastsT
-  Pads = {0, 64, 128, 192}
+  Pads = {0, 192}
 INVARIANTS DesignOK SpaceOK
 CHECK_DEADLOCK FALSE
